@@ -9,7 +9,11 @@ D=/tmp/seeded/$ID/$V
 WT=/tmp/wt/$ID
 [ -d "$WT" ] || git -C /repo worktree add -q "$WT" HEAD
 export GOFLAGS=-mod=mod GOPROXY=off GOSUMDB=off
-R=$D/RESULT.txt; : > $R
+R=$D/RESULT.txt
+# PHASE=1: confirmation only (safe to run for several properties in parallel, each has its own worktree);
+# PHASE=2: only the checks against /repo (strictly serial: the change is applied to /repo itself)
+if [ "${PHASE:-}" = 2 ]; then sed -i '/^check /d' $R; else : > $R; fi
+if [ "${PHASE:-}" != 2 ]; then
 demo=$(ls $D/*_test.go 2>/dev/null | head -1)
 [ -z "$demo" ] && { echo "NO-DEMO" >> $R; }
 name=$(basename "$demo" 2>/dev/null)
@@ -32,6 +36,8 @@ if [ -n "$path" ]; then
   grep -q "^FAIL\|--- FAIL" $D/existing_with.log && echo "existing-tests-of-touched-packages: FAIL" >> $R || echo "existing-tests-of-touched-packages ($pkgs): PASS" >> $R
   ( cd $WT && git checkout -q -- . && git clean -fdq )
 fi
+fi
+[ "${PHASE:-}" = 1 ] && { cat $R; exit 0; }
 # run the checks against /repo with the change applied
 cd /verif
 git -C /repo apply $D/patch.diff || { echo "PATCH-DOES-NOT-APPLY-TO-REPO" >> $R; exit 0; }
